@@ -160,7 +160,8 @@ theorem C05_fetch_v0_roundtrip : Afkak.Props.C05.C05_fetch_v0_roundtrip_stmt := 
       exact ⟨rfl, cur, rfl⟩
   · cases he
 
-/-- **Fetch v1 / v2, any record sets** -/
+/-- **Fetch v2, any record sets** (there is no version-1 response grammar and no version-1 theorem:
+    the client does not implement version-1 replies, see `C04_reply_v1_not_implemented`) -/
 theorem C05_fetch_v2_roundtrip : Afkak.Props.C05.C05_fetch_v2_roundtrip_stmt := by
   intro ext depth v e he
   unfold expectedFetchV2 at he
@@ -314,6 +315,25 @@ example : (expectedApiVersions (7, 35, [(18, 0, 3), (0, 0, 8)])).isSome = true :
 example : (expectedJoinGroup (1, 0, 3, [114], [109], [109], [([109], [0, 1])])).isSome = true := by decide
 example : (expectedOffsetFetch (-2147483648, [([116], [(0, -1, none, 3), (1, 5, some [], 0)])])).isSome = true := by decide
 
+/-- **The two codec masks agree wherever the monitor judges**: the protocol's codec field is
+    `attributes mod 8`, afkak masks with `0x03` (`mod 4`).  For every attributes byte whose protocol
+    codec is below 4 the two are equal; a message whose protocol codec is 2 or more (snappy, lz4, or a
+    value formats 0/1 do not define) makes the monitor's expectation undefined (out-of-range), so the
+    disagreement of the masks on 4..7 is never judged as a success. -/
+theorem C05_codec_mask_agree :
+    (∀ a : Nat, a % 8 < 4 → a % 4 = a % 8)
+    ∧ (∀ (ow : Int → Spec.Msg → Option (List (Int × Spec.Msg))) (off : Int) (m : Spec.Msg) (rest : List (Int × Spec.Msg)),
+        2 ≤ m.attributes % 8 → expandWith ow ((off, m) :: rest) = none) := by
+  constructor
+  · intro a h; omega
+  · intro ow off m rest h
+    unfold expandWith
+    cases expandWith ow rest with
+    | none => rfl
+    | some tail =>
+      simp only
+      rw [if_neg (by omega), if_neg (by omega)]
+
 end Afkak.Props.C05
 
 /- OBLIGATIONS
@@ -345,6 +365,7 @@ C05_subscription_roundtrip
 C05_assignment_roundtrip
 C05_metadata_roundtrip
 C05_correlation_id
+C05_codec_mask_agree
 -/
 /- OPEN_STATEMENTS
 -/
